@@ -18,6 +18,7 @@ FINDINGS_FILE = os.path.join(VERIF, 'known_findings.json')
 
 ASAN_OPTIONS = 'detect_leaks=0:abort_on_error=0:exitcode=99:allocator_may_return_null=1:handle_abort=0:detect_stack_use_after_return=0'
 UBSAN_OPTIONS = 'halt_on_error=1:print_stacktrace=1:exitcode=98'
+TSAN_OPTIONS = 'halt_on_error=0:exitcode=66:report_signal_unsafe=0'
 
 
 class Stage:
@@ -52,7 +53,7 @@ def env_for_worker(seed, params):
     e = dict(os.environ)
     e['ASAN_OPTIONS'] = ASAN_OPTIONS
     e['UBSAN_OPTIONS'] = UBSAN_OPTIONS
-    e['TSAN_OPTIONS'] = 'halt_on_error=0:exitcode=0'
+    e['TSAN_OPTIONS'] = TSAN_OPTIONS
     rc = 'seed=%d' % (seed if seed != 0 else 1)
     for k in ('max_success', 'max_size', 'max_discard_ratio'):
         if k in params:
@@ -65,6 +66,15 @@ def run_replay(binpath, path, extra_args=()):
     e = dict(os.environ)
     e['ASAN_OPTIONS'] = ASAN_OPTIONS
     e['UBSAN_OPTIONS'] = UBSAN_OPTIONS
+    e['TSAN_OPTIONS'] = TSAN_OPTIONS
+    extra_args = list(extra_args)
+    if not extra_args:
+        try:
+            with open(path) as f:
+                for k, v in (json.load(f).get('opts') or {}).items():
+                    extra_args += ['--opt', '%s=%s' % (k, v)]
+        except Exception:
+            pass
     r = subprocess.run([binpath, '--replay', path] + list(extra_args), stdout=subprocess.PIPE,
                        stderr=subprocess.PIPE, text=True, env=e, errors='replace')
     m = re.search(r'REPLAY verdict=(\w+) fails=(\d+)/(\d+) sig=(.*)', r.stdout)
